@@ -69,6 +69,33 @@ def rule_ids(c, prog):
     c.sample({"rule": R, "ids": {v: hex(i) for v, i in sorted(v2i.items())}})
 
 
+def rule_narrow(c, prog, R="C14.arm"):
+    """numbers read from the blob are not silently truncated before they are validated"""
+    W = {"u8": 8, "i8": 8, "u16": 16, "i16": 16, "u32": 32, "i32": 32, "u64": 64, "i64": 64, "usize": 64, "isize": 64}
+    n = 0
+    for f in prog.lib_fns():
+        if f.body is None or f.crate != "rbx_types" or "attributes::reader" not in f.path:
+            continue
+        lets = {st["pat"]["lid"]: st["init"] for st in core.walk_lets(f.body) if st["pat"].get("k") == "Binding" and st.get("init") is not None}
+        for x in core.walk_fn(f):
+            if x.get("k") != "Cast":
+                continue
+            src = core.strip(x["e"])
+            sty, tty = (src.get("ty") or ""), (x.get("ty") or "")
+            if sty in W and tty in W and W[tty] < W[sty]:
+                # where does the operand come from: a value read from the blob?
+                e = src
+                if e.get("k") == "Path" and e.get("lid") in lets:
+                    e = lets[e["lid"]]
+                from_input = any(y.get("k") in ("Call", "MethodCall") and ((core.callee(y) or "").rsplit("::", 1)[-1].startswith("read_")) for y in core.walk(e))
+                if not from_input:
+                    continue
+                n += 1
+                c.violation(R, f"narrowing|{core.short(f.path).rsplit('::', 1)[-1]}|{sty}->{tty}", f"{f.path} truncates a {sty} read from the blob to {tty} with `as` before using it: values above {2 ** W[tty] - 1} wrap into the valid range instead of being rejected (e.g. BrickColor number 65537 decodes as White); convert with try_from", core.loc(x), instance=f"narrowing:{core.short(f.path)}")
+    if n == 0:
+        c.ok(R, "reader:no-narrowing-cast-of-input")
+
+
 def run(c, prog):
     common.rule_base64_whole(c, prog, "C14.b64")
     from . import C01 as _C01
@@ -77,6 +104,7 @@ def run(c, prog):
     from . import C14_rest, C14_arm
     C14_rest.run(c, prog)
     C14_arm.run(c, prog)
+    rule_narrow(c, prog)
     from . import C01_rot
     C01_rot.run(core.Alias(c, "C14"), prog)     # the CFrame attribute shares the 24 rotation ids
     from . import C13 as _C13
